@@ -483,7 +483,7 @@ func runEvolution(r *evid.Run, dir string, cs int64) {
 
 func main() {
 	r := evid.New(P, "exploration")
-	r.Rule("generated chain evolutions fed to a complete wallet.Wallet through an in-memory chain.Interface (both delivery styles: btcd RelevantTx+BlockConnected, bitcoind/neutrino FilteredBlockConnected+BlockConnected): extensions by 1..5 blocks, reorgs of depth 1..12 within the stored window (new branch equal or longer), wallet payments placed in the losing branch, re-included at other heights of the winning branch or left unconfirmed, unconfirmed payments, repeated BlockConnected(tip), repeated / stale / unknown-hash BlockDisconnected, restarts with the chain unchanged / extended / reorganised while the wallet was stopped, and a block connected while the startup rescan is still running. After EVERY step (deterministic two-no-op barrier) the backend's best chain is the oracle: SyncedTo = tip (height and hash), BlockHash(h) = best-chain hash for every stored height up to the tip, every transaction reported with a block names a best-chain block that contains it, every best-chain payment is reported confirmed, CalculateBalance(1) and (0) equal the backend ledger. Non-trivial = evolution with at least one reorg; distinct = distinct step sequences.")
+	r.Rule("generated chain evolutions fed to a complete wallet.Wallet through an in-memory chain.Interface (both delivery styles: btcd RelevantTx+BlockConnected, bitcoind/neutrino FilteredBlockConnected+BlockConnected): extensions by 1..5 blocks, reorgs of depth 1..12 within the stored window (new branch equal or longer), wallet payments placed in the losing branch, re-included at other heights of the winning branch or left unconfirmed, unconfirmed payments, repeated BlockConnected(tip), repeated / stale / unknown-hash BlockDisconnected (also re-delivered half-way through a reorg: after all disconnects, or between two instalments of the new branch, where the synced-to block must already be a best-chain block), restarts with the chain unchanged / extended / reorganised while the wallet was stopped, and a block connected while the startup rescan is still running. After EVERY step (deterministic two-no-op barrier) the backend's best chain is the oracle: SyncedTo = tip (height and hash), BlockHash(h) = best-chain hash for every stored height up to the tip, every transaction reported with a block names a best-chain block that contains it, every best-chain payment is reported confirmed, CalculateBalance(1) and (0) equal the backend ledger. Non-trivial = evolution with at least one reorg; distinct = distinct step sequences.")
 	r.Trusted("fakechain (harness) as the definition of the best chain")
 	r.Assume("reorgs never reach below the first block the wallet stored (outside 'within the window')", "hashes above the tip are not inspected", "assertions start after RescanFinished (the wallet ignores disconnects before that by design)", "repeated BlockConnected is only sent for the current tip")
 	dir, _ := os.MkdirTemp("", "c15")
